@@ -16,6 +16,7 @@ import functools
 
 from mc.gen import docs as D
 
+READY = True
 LEVEL = "exploration"
 TECHNIQUE = "bounded-exhaustive enumeration of selection trees x fragment distributions x directive placements x limits against a reference depth measure"
 LEVEL_TEXT = (
